@@ -8,6 +8,10 @@ PY = '/venv/bin/python'
 
 MC = 'model_checking'
 CHECKS = {
+    'C15': (MC, 'explicit-state BFS over systems of bound interpreters and callables (bind/detach at any point, also in the middle of a step), lock-step with reference mailboxes',
+            'BFS (depth 5-7) over queue/execute_once/clock/bind/detach on systems of 2 and 3 interpreters with recording callables and a callable that detaches a listener while it is being notified; cycles and self-binding arise by reachability. Each step must consume the predicted event (identity by serial) and report the predicted sent events; the global delivery log of the callables must equal the reference exactly; every state is drained with exactly-once accounting.',
+            'Trusts the reference mailbox model (80 lines); depth-bounded; <= 2-3 listeners per interpreter.',
+            '§4 C15'),
     'C11': (MC, 'exhaustive bounded input enumeration (all skeleton charts x all field kinds; every (field position, string) pair over a YAML-hostile alphabet) plus lock-step BFS of original vs re-imported chart',
             'Every skeleton chart (<=4-6 states) with every field kind populated, API- and YAML-built, is round-tripped: field-by-field equality, == between originals and re-imports, and lock-step execution over the complete BFS of the original. Every string of a 70-string alphabet (YAML type look-alikes, indicators, quotes, multi-line, unicode line separators, BOM, emoji, control characters) is substituted at every field position, and every pair of strings for two state names.',
             'Strings outside the alphabet are not covered; code/event strings are compared modulo surrounding whitespace; U+0085 is a known finding (F12).',
